@@ -17,7 +17,7 @@ EXTRA={
  'rpush': ['//@ ensures [C11] wakes: mutated ==> gWakeRequested == len(values) && gWakeKey == keyName', '//@ loopinv [C03] bounded: list != nil ==> list.count < (1<<56) + ri1', '//@ requires free sizes: len(values) < (1<<40)'],
  'lpushx': ['//@ ensures [C11] wakes: mutated ==> gWakeRequested == len(values) && gWakeKey == keyName', '//@ loopinv [C03] bounded: list != nil ==> list.count < (1<<56) + ri1', '//@ requires free sizes: len(values) < (1<<40)'],
  'rpushx': ['//@ ensures [C11] wakes: mutated ==> gWakeRequested == len(values) && gWakeKey == keyName', '//@ loopinv [C03] bounded: list != nil ==> list.count < (1<<56) + ri1', '//@ requires free sizes: len(values) < (1<<40)'],
- 'getListUnlocked': ['//@ ensures [C03] listwf: list != nil ==> listWF(list)', '//@ ensures [C03] listsize: list != nil ==> list.count < (1<<56)', '//@ use storeKey.getList.listwf', '//@ include listsframe'],
+ 'getListUnlocked': ['// keyspace invariant (C06): a list found in the keyspace is not empty - every command that shrinks or creates a list proves noempty at its exit', '//@ ensures free nonempty: list != nil ==> list.count > 0', '//@ ensures [C03] listwf: list != nil ==> listWF(list)', '//@ ensures [C03] listsize: list != nil ==> list.count < (1<<56)', '//@ use storeKey.getList.listwf', '//@ include listsframe'],
  'ensureListUnlocked': ['//@ include listsframe', '//@ use dataStoreCommand.getListUnlocked.lists.kept dataStoreCommand.getListUnlocked.items.kept', '//@ ensures [C03] listwf: list != nil ==> listWF(list)', '//@ ensures [C03] listsize: list != nil ==> list.count < (1<<56)', '//@ ensures [C03] nonnil: err == nil ==> list != nil', '//@ use storeKey.getList.listwf dataStoreCommand.getListUnlocked.listwf'],
  'newListUnlocked': ['//@ include listsframe', '//@ use dataStoreCommand.getListUnlocked.lists.kept dataStoreCommand.getListUnlocked.items.kept', '//@ ensures [C03] listwf: list != nil && listWF(list)', '//@ use storeKey.getList.listwf dataStoreCommand.getListUnlocked.listwf'],
  'expire': ['//@ ensures internal [C07] table: exists ==> ((output.data == respInt(1)) == ((nx && !(old(sk.expiresAt) < maxTime)) || (!nx && xx && old(sk.expiresAt) < maxTime) || (!nx && !xx && gt && expiration > old(sk.expiresAt)) || (!nx && !xx && !gt && lt && expiration < old(sk.expiresAt)) || (!nx && !xx && !gt && !lt)))',
@@ -92,7 +92,36 @@ EXTRA={
             '//@ ensures [C06] refused.inert: output.data != rstrOK ==> !mutated'],
  'hashTableScan': ['//@ touches C17', '//@ requires [C17,C13] count.positive: count >= 1', '//@ requires !scanStarted'],
  'setScan': ['//@ touches C17', '//@ requires [C17,C13] count.positive: count >= 1', '//@ requires !scanStarted'],
- 'lmpop': ['//@ loop "for _, keyName := range keyNames" invariant [C06] nomut: !mutated'],
+ 'deleteSetMembers': ['//@ loop "for _, memberName := range memberNames" invariant [C06] noempty.loop: m != nil && (removed > 0 ==> m.count > 0)', '//@ assertafter "for _, memberName := range memberNames" [C06] noempty: removed > 0 && m.count == 0 ==> !dsc.ds.data.vdom[keyName]'],
+ 'lrange': [
+   # LRANGE returns exactly the window [S, min(E, n-1)] of the list: S and E are the Redis normalisation of the arguments
+   '//@ loop 1 invariant [C03] seek: 0 <= offset && offset <= list.count && offset <= start && start == specRangeStart(old(start), list.count) && stop == specRangeStop(old(stop), list.count) && len(values) == 0',
+   '//@ loop 1 invariant [C03] seek.item: (offset < list.count ==> item == list.seq[offset]) && (offset == list.count ==> item == nil)',
+   '//@ loop 2 invariant [C03] take: offset <= list.count && stop == specRangeStop(old(stop), list.count) && (offset <= stop + 1 || len(values) == 0)',
+   '//@ loop 2 invariant [C03] take.len: len(values) == offset - ite(specRangeStart(old(start), list.count) < list.count, specRangeStart(old(start), list.count), list.count)',
+   '//@ loop 2 invariant [C03] take.item: (offset < list.count ==> item == list.seq[offset]) && (offset == list.count ==> item == nil)',
+   '//@ assertbefore "values = append(values, string(item.element))" [C03] window.item: offset < list.count && item == list.seq[offset]',
+   '//@ assertbefore "output = nativeValueToResp(values)" [C03] window.len: list != nil ==> len(values) == specRangeLen(old(start), old(stop), list.count)',
+   '//@ assertbefore "output = nativeValueToResp(values)" [C03] missing: list == nil ==> len(values) == 0'],
+ 'ltrim': [
+   # LTRIM keeps exactly the window [S, S+T) of the list as it was found, in order (S, T: the Redis normalisation of the arguments)
+   '//@ ghostafter "list, err := dsc.getListUnlocked(keyName)" : gSeq0 = list.seq',
+   '//@ ghostafter "list, err := dsc.getListUnlocked(keyName)" : gN0 = list.count',
+   '//@ ghostbefore "for start > 0 {" : gTrimHead = start',
+   '//@ loop 1 invariant [C03] head: 0 <= start && start <= list.count && start <= gTrimHead && list.count + gTrimHead - start == gN0 && stop <= gN0',
+   '//@ loop 1 invariant [C03] head.start: gTrimHead == specTrimStart(old(start), gN0) || (gTrimHead == 0 && specTrimLen(old(start), old(stop), gN0) == 0)',
+   '//@ loop 1 invariant [C03] head.window: stop - start + 1 >= 0 && ite(stop - start + 1 < list.count - start, stop - start + 1, list.count - start) == specTrimLen(old(start), old(stop), gN0)',
+   '//@ loop 1 invariant [C03] head.rest: all(i, 0, list.count, list.seq[i] == gSeq0[i + gN0 - list.count])',
+   '//@ loop 2 invariant [C03] tail: stop >= 0 && ite(stop < list.count, stop, list.count) == specTrimLen(old(start), old(stop), gN0)',
+   '//@ loop 2 invariant [C03] tail.start: gTrimHead == specTrimStart(old(start), gN0) || (gTrimHead == 0 && specTrimLen(old(start), old(stop), gN0) == 0)',
+   '//@ loop 2 invariant [C03] tail.rest: all(i, 0, list.count, list.seq[i] == gSeq0[i + gTrimHead])',
+   '//@ assertbefore "output.data = rstrOK" [C03] kept.len: list != nil ==> list.count == specTrimLen(old(start), old(stop), gN0)',
+   '//@ assertbefore "output.data = rstrOK" [C03] kept.items: list != nil ==> all(i, 0, list.count, list.seq[i] == gSeq0[i + specTrimStart(old(start), gN0)])'],
+ 'save': ['// the saver touches the snapshot files, the dirty flag and the lock - nothing else (the table of databases in particular stays as it is)', '//@ modifies ghost.held redisDict.dirty ghost.fsLivePath ghost.fsLiveOK ghost.fsOpenPath ghost.fsHdrs ghost.fsHdrCount ghost.fsKeys ghost.fsVals ghost.fsFlags ghost.fsBroken ghost.fsClosed ghost.fsReplaced'],
+ 'sort': [
+   # SORT ... STORE: the destination is replaced; an empty result leaves no key (C06: no empty list)
+   '//@ assertbefore "output.data = respInt(len(a))" [C06] store.noempty: len(a) == 0 ==> !dsc.ds.data.vdom[destKeyName]'],
+ 'lmpop': ['//@ loop "for _, keyName := range keyNames" invariant [C06] nomut: !mutated', '//@ loop 2 invariant [C06] noempty.left: list.count == 0 ==> !dsc.ds.data.vdom[keyName]', '//@ loop 3 invariant [C06] noempty.right: list.count == 0 ==> !dsc.ds.data.vdom[keyName]', '//@ assertbefore "result = []any{keyName, elements}" [C06] noempty: list.count == 0 ==> !dsc.ds.data.vdom[keyName]'],
  'addInt': ['//@ ghostafter "value, err = strconv.ParseInt" : gParsed = value',
             '//@ ghostafter "canonical := strconv.FormatInt(value, 10)" : gParsedOK = (err == nil && canonical)',
             '//@ requires !gParsedOK',
@@ -122,7 +151,7 @@ EXTRA={
             '//@ ensures internal [C02] length: mutated ==> istype(newSk.payload, []byte) && result.data == respInt(len(unbox(newSk.payload, []byte))) && len(unbox(newSk.payload, []byte)) >= offset + len(substring) && flagHasOne(newSk.flags, FLAG_KEY_TYPE_STRING)',
             '//@ ensures internal [C07] keeps.deadline: mutated && exists ==> newSk.expiresAt == old(oldSk.expiresAt)'],
  'setHashTableFields': ['//@ requires [C13] samelen: len(values) >= len(fieldNames)'],
- 'deleteHashTableFields': ['//@ loop "for _, fieldName := range fieldNames" invariant [C04] gone: allsel(i, 0, ri1, !m.vdom[fieldNames[i]])',
+ 'deleteHashTableFields': ['//@ loop "for _, fieldName := range fieldNames" invariant [C06] noempty.loop: removed > 0 ==> m.count > 0', '//@ assertafter "for _, fieldName := range fieldNames" [C06] noempty: removed > 0 && m.count == 0 ==> !dsc.ds.data.vdom[keyName]','//@ loop "for _, fieldName := range fieldNames" invariant [C04] gone: allsel(i, 0, ri1, !m.vdom[fieldNames[i]])',
             '//@ loop "for _, fieldName := range fieldNames" invariant m != nil',
             '//@ assertbefore "break" [C04] emptied: m.count == 0 && !dsc.ds.data.vdom[keyName]'],
  'diffWorker': ['//@ ghostentry gAcc = gEmptySet',
@@ -240,6 +269,10 @@ EXTRA={
             '//@ loop "for _, keyName := range keys" invariant [C02] nomut: !mutated && flagHasOne(options, SET_NOT_EXIST)',
             '//@ loop "for idx, keyName := range keys" invariant [C02] stored: allsel(i, 0, ri2, dsc.ds.data.vdom[keys[i]])',
             '//@ loop "for idx, keyName := range keys" invariant [C02] reply: result.data != respInt(0)',
+            # MSET / MSETNX: every key written ends up as a plain string without a deadline (the last pair wins for a repeated key)
+            '//@ use dataStore.newStoreKeyUnlocked.keys.kept dataStore.newStoreKeyUnlocked.installed dataStore.newStoreKeyUnlocked.fresh',
+            '//@ loop "for idx, keyName := range keys" invariant [C02,C07] plain: allsel(i, 0, ri2, istype(dsc.ds.data.vval[keys[i]], *storeKey) && unbox(dsc.ds.data.vval[keys[i]], *storeKey) != nil && flagHasOne(unbox(dsc.ds.data.vval[keys[i]], *storeKey).flags, FLAG_KEY_TYPE_STRING) && unbox(dsc.ds.data.vval[keys[i]], *storeKey).expiresAt == maxTime)',
+            '//@ ensures internal [C02,C07] all.plain: result.data != respInt(0) ==> allsel(i, 0, len(keys), istype(dsc.ds.data.vval[keys[i]], *storeKey) && flagHasOne(unbox(dsc.ds.data.vval[keys[i]], *storeKey).flags, FLAG_KEY_TYPE_STRING) && unbox(dsc.ds.data.vval[keys[i]], *storeKey).expiresAt == maxTime)',
             '//@ ensures internal [C02] msetnx.none: result.data == respInt(0) ==> !mutated && flagHasOne(options, SET_NOT_EXIST)',
             '//@ ghostentry gSawExisting = false',
             '//@ ghostafter "_, exists := dsc.getKeyObjectUnlocked(keyName)" : if exists : gSawExisting = true',
@@ -258,6 +291,20 @@ EXTRA={
 }
 # methods that are not commands on the keyspace (persistence / dev helpers): no dirty or version clauses
 NOSTATE={'save','load','dumpKey'}
+# the command family a store method serves: "failed commands are inert" is part of that family's
+# semantics too (C02..C05, C18), not only of the keyspace discipline (C06)
+def family(n):
+    if n in ('setKey','setKeys','setRange','getKey','getKeyBytes','getKeys','getKeySetExpiration','getDeleteKey','addInt','addFloat'): return 'C02'
+    if n in ('bitfieldWrite','invertBits','changeBits'): return 'C18'
+    if re.match(r'^(l[a-z]|rp|findListItem|getList|ensureList|newList)', n) and n not in ('liveKeyCount','load'): return 'C03'
+    if 'HashTable' in n or n.startswith('fieldAdd') or n=='hashTableScan': return 'C04'
+    if 'Set' in n or n.startswith(('diff','intersect','union','setMove','setRemove','setScan','setHas','setAdd','setOperation')): return 'C05'
+    return None
+# a list, hash or set never exists empty (C06): removing commands prove "count 0 ==> key gone" at exit
+NOEMPTY_LIST={'lpop','rpop','lremove','ltrim'}
+NOEMPTY_PUSH={'lpush','rpush'}
+# read-only commands: nothing in the keyspace is written, whatever the reply
+READONLY={'getKeys','keys','exists','getKeyType','getHashTableField','getHashTable','getHashTableFieldValues','getHashTableRandField','getHashTableFields','getHashTableValues','getHashTableCount','hashTableScan','getSet','getSetRandMember','getSetMembers','getSetCount','setScan','setHasMember','setHasMembers','lindex','llen','lrange','lpos','randomKey','scan','expireTime','dump','liveKeyCount','setOperation','setOperationCount','diffSet','intersectSet','intersectSetCount','unionSet'}
 out=['//go:build verif','','package redisemu','','// GENERATED by /verif/scripts/gen_store_contracts.py — do not edit by hand.','']
 for n in names:
     if n in SKIP: continue
@@ -268,8 +315,20 @@ for n in names:
     out.append('//@ safetyprop C13')
     out.append('//@ requires dscOK(dsc)')
     out += EXTRA.get(n, [])
+    fam = family(n)
+    C06T = '[C06,%s]' % fam if fam else '[C06]'
+    if n in READONLY:
+        out.append('//@ ensures [C06%s] readonly: !mutated' % (','+fam if fam else ''))
+        out.append('//@ loopinv [C06%s] readonly.loop: !mutated' % (','+fam if fam else ''))
+    if n in NOEMPTY_LIST:
+        out.append('//@ loopinv [C06] noempty.loop: list != nil && list.count == 0 ==> !dsc.ds.data.vdom[keyName]')
+        out.append('//@ ensures internal [C06] noempty: list != nil && list.count == 0 ==> !dsc.ds.data.vdom[keyName]')
+    if n in NOEMPTY_PUSH:
+        # a push never leaves the list it created empty (the command table demands at least one element)
+        out.append('//@ loopinv [C06] noempty.loop: list != nil ==> list.count >= ri1')
+        out.append('//@ ensures internal [C06] noempty: err == nil && list != nil && len(values) > 0 ==> list.count > 0')
     out.append('//@ use dataStore.newStoreKeyUnlocked.otherdicts')
-    LISTM={'lpush','lpushx','rpush','rpushx','lpop','rpop','linsert','lindex','lrange','lpos','llen'}
+    LISTM={'lpush','lpushx','rpush','rpushx','lpop','rpop','linsert','lindex','lrange','lpos','llen','ltrim'}
     if n in LISTM:
         out.append('//@ mode int')
         out.append('//@ use *')
@@ -285,14 +344,14 @@ for n in names:
     if not helper and n not in NOSTATE:
         for m in re.finditer(r'(\w+) valueExists', rets):
             r=m.group(1)
-            out.append('//@ ensures [C06] inert.%s: (%s == VALUE_WRONG_TYPE || %s == VALUE_WRONG_FORMAT || %s == VALUE_OVERFLOW) ==> !mutated' % (r,r,r,r))
+            out.append('//@ ensures %s inert.%s: (%s == VALUE_WRONG_TYPE || %s == VALUE_WRONG_FORMAT || %s == VALUE_OVERFLOW) ==> !mutated' % (C06T,r,r,r,r))
         for m in re.finditer(r'(\w+) bool', rets):
             if m.group(1)=='wrongType':
-                out.append('//@ ensures [C06] inert.wrongtype: wrongType ==> !mutated')
+                out.append('//@ ensures %s inert.wrongtype: wrongType ==> !mutated' % C06T)
         for m in re.finditer(r'(\w+) \*respErrorString', rets):
-            out.append('//@ ensures [C06] inert.err: %s != nil ==> !mutated' % m.group(1))
+            out.append('//@ ensures %s inert.err: %s != nil ==> !mutated' % (C06T, m.group(1)))
         for m in re.finditer(r'(\w+) respValue', rets):
-            out.append('//@ ensures [C06] inert.wrongtype: %s.data == wrongTypeError ==> !mutated' % m.group(1))
+            out.append('//@ ensures %s inert.wrongtype: %s.data == wrongTypeError ==> !mutated' % (C06T, m.group(1)))
     if helper and n in MUTHELPERS:
         for m in re.finditer(r'(\w+) \*respErrorString', rets):
             out.append('//@ ensures [C06] inert.err: %s != nil ==> mutated == old(mutated)' % m.group(1))
@@ -323,7 +382,7 @@ for n in names:
     else:
         # either a plain command (lock free) or one replayed by EXEC (lock held, multiLock names it)
         out.append('//@ requires [C08,C16] unlocked: lockMode(dsc)')
-        out.append('//@ ensures released: lockMode(dsc)')
+        out.append('//@ ensures [C08,C16,C13] released: lockMode(dsc)')
         if n not in NOSTATE:
             out.append('//@ requires !mutated && !bumped && !removedKey')
             if n not in ('copy','move'):
